@@ -1,12 +1,128 @@
 package main
 
 import (
+	"bufio"
 	"fmt"
 	"os"
+	"runtime"
+	"strconv"
+	"strings"
+	"sync"
+
+	"github.com/nikunjy/rules"
+	"github.com/nikunjy/rules/parser"
 )
 
-// concMain is filled in by conc_impl.go (C12); placeholder keeps the build whole.
+// concMain: driver conc <cases> <out> <goroutines> <rounds> <gomaxprocs>
+// Every goroutine owns a disjoint slice of the eval cases and its own Evaluator
+// values.  All goroutines start together behind a barrier, so the first use of
+// the package (lazy static initialisation of lexer and parser) is concurrent.
+// Per case it prints the first-round observation and whether every later round,
+// on a reused and on a fresh evaluator, and both Evaluate functions, gave the same.
 func concMain(args []string) {
-	fmt.Fprintln(os.Stderr, "conc mode not built")
-	os.Exit(2)
+	if len(args) < 5 {
+		fmt.Fprintln(os.Stderr, "usage: driver conc cases out G R P")
+		os.Exit(2)
+	}
+	g, _ := strconv.Atoi(args[2])
+	rounds, _ := strconv.Atoi(args[3])
+	procs, _ := strconv.Atoi(args[4])
+	runtime.GOMAXPROCS(procs)
+	f, err := os.Open(args[0])
+	if err != nil {
+		fmt.Fprintln(os.Stderr, err)
+		os.Exit(2)
+	}
+	type job struct {
+		id, rule string
+		objx     *sexp
+	}
+	var jobs []job
+	sc := bufio.NewScanner(f)
+	sc.Buffer(make([]byte, 1<<20), 1<<26)
+	for sc.Scan() {
+		x, err := parseSexp(sc.Text())
+		if err != nil || !x.isL || len(x.list) != 4 || x.list[0].atom != "eval" {
+			continue
+		}
+		rule, ok := hexBytes(x.list[2].atom)
+		if !ok {
+			continue
+		}
+		jobs = append(jobs, job{x.list[1].atom, rule, x.list[3]})
+	}
+	results := make([]string, len(jobs))
+	var start, done sync.WaitGroup
+	start.Add(1)
+	for w := 0; w < g; w++ {
+		done.Add(1)
+		go func(w int) {
+			defer done.Done()
+			start.Wait()
+			for i := w; i < len(jobs); i += g {
+				j := jobs[i]
+				ov, err := buildVal(j.objx)
+				if err != nil {
+					results[i] = j.id + " BADCASE"
+					continue
+				}
+				obj := ov.(map[string]interface{})
+				one := func(ev *parser.Evaluator) string {
+					var v bool
+					var perr error
+					func() {
+						defer func() {
+							if r := recover(); r != nil {
+								perr = fmt.Errorf("ESCAPED %v", r)
+							}
+						}()
+						v, perr = ev.Process(obj)
+					}()
+					return "verdict=" + b01(v) + " err=" + errClass(perr) + " dbg=" + dbgClass(ev.LastDebugErr())
+				}
+				ev, nerr := parser.NewEvaluator(j.rule)
+				if nerr != nil || ev == nil {
+					results[i] = j.id + " verdict=0 err=other dbg=nil stable=1"
+					continue
+				}
+				first := one(ev)
+				stable := true
+				for r := 1; r < rounds; r++ {
+					if one(ev) != first {
+						stable = false
+					}
+					if r%2 == 0 {
+						ev2, _ := parser.NewEvaluator(j.rule)
+						if ev2 == nil || one(ev2) != first {
+							stable = false
+						}
+					}
+					if r%3 == 0 {
+						v2, e2 := rules.Evaluate(j.rule, obj)
+						v3 := parser.Evaluate(j.rule, obj)
+						if !strings.HasPrefix(first, "verdict="+b01(v2)+" err="+errClass(e2)) || b01(v3) != b01(v2) {
+							stable = false
+						}
+					}
+					if r%5 == 0 {
+						runtime.Gosched()
+					}
+				}
+				results[i] = j.id + " " + first + " stable=" + b01(stable)
+			}
+		}(w)
+	}
+	start.Done()
+	done.Wait()
+	out, err := os.Create(args[1])
+	if err != nil {
+		fmt.Fprintln(os.Stderr, err)
+		os.Exit(2)
+	}
+	bw := bufio.NewWriter(out)
+	for _, r := range results {
+		fmt.Fprintln(bw, r)
+	}
+	bw.Flush()
+	out.Close()
 }
